@@ -639,6 +639,7 @@ def replay_roundtrip(pattern, sizes, names, header_mode):
                 if k == "d":
                     os.mkdir(p)
                 elif k == "l":
+                    open(os.path.join(d, "target%d" % i), "wb").write(b"t")   # (py7zr refuses dangling links)
                     os.symlink("target%d" % i, p)
                     expect[names[i]] = b"target%d" % i
                 else:
